@@ -195,6 +195,18 @@ def body(env, cfg):
         qGp = sum((x * y for x, y in zip(qc, matvec(Gts, pc))), 0)
         qGq = sum((x * y for x, y in zip(qc, matvec(Gtt, qc))), 0)
         quad.append(pGp - 2 * qGp + qGq)
+    if dim == 2:
+        # vector-valued points: the error of the worst coordinate
+        kappa = F(1, 2) if nodes is not None else F(1)
+        if env.sym:
+            raw = getattr(err, "_absof", None) if isinstance(err, core.SV) else None
+            if raw is not None:
+                which = [c for c, q in enumerate(quad) if core.prove_eq(env.ctx, raw, kappa * q)[0] == "valid"]
+                env.holds("returned error is kappa * integral of the squared residual of one coordinate", bool(which))
+            for c, q in enumerate(quad):
+                env.holds(f"returned error is at least that of coordinate {c} (the worst coordinate decides)", err >= kappa * q)
+        else:
+            env.eq("returned error == kappa * integral of the squared residual of the worst coordinate", err, kappa * max(quad))
     if dim == 0:
         raw = getattr(err, "_absof", None) if isinstance(err, core.SV) else None
         kappa = F(1, 2) if nodes is not None else F(1)
